@@ -532,6 +532,39 @@ def main(tier, prop="C01"):
         unanalysed = sum(max(0, v - 1) for v in seen_kind.values())
         rep.add("divergences_of_an_already_analysed_class", unanalysed)
         rep.note("divergence_classes_%s" % cname, seen_kind)
+    # ill-typed run-time operands inside compiled functions (the typed generator never produces them): the operators
+    # whose error behaviour the reference pins, applied in 11 code shapes; which calls raise is part of the semantics
+    from . import c07
+    PINNED = {"+", "-", "*", "<", "<=", ">", ">=", "=", "car", "cdr", "cons", "null?", "not", "vector-ref", "vector-set!", "list-ref",
+              "length", "quotient", "modulo", "remainder", "hash-ref", "string-length", "string-append", "vector-length", "reverse",
+              "abs", "zero?", "even?", "add1", "sub1", "char->integer", "apply", "cadr"}
+    ill = []
+    for desc, text in c07.gen_compiled_programs(core.rng(prop, "ill-typed"), 550 if tier == "quick" else 11000):
+        if desc.split("/")[0] in PINNED:
+            try:
+                ill.append((desc, R.parse(text)))
+            except Exception:
+                pass
+    ill_seen = {"accepted_by_reference": 0, "calls_that_raise": 0, "calls_that_return": 0}
+    for cname, env, as_module in CONFIGS:
+        outs = batch_check([f for _, f in ill], env, as_module, tag="c01i")
+        for (desc, forms), x in zip(ill, outs):
+            if x is None:
+                continue
+            rep.count()
+            rep.nontrivial((desc, cname))
+            if cname == "top":
+                ill_seen["accepted_by_reference"] += 1
+                ill_seen["calls_that_raise"] += sum(1 for e in x[0][1] if e == 'y:"err"')
+                ill_seen["calls_that_return"] += sum(1 for e in x[0][1] if e not in ('y:"err"', 'y:"survived"'))
+            if x[0] != x[1]:
+                sig = "%s ill-typed operand of %s in a compiled function: %s [%s]" % (
+                    prop, desc.split("/")[0], kind_of(x), "module" if as_module else "top-level")
+                rep.violation(sig, "config=%s %s (%s)\nprogram:\n%s" % (cname, first_diff(x[0], x[1]), desc, R.program_source(forms)),
+                              {"config": env, "as_module": as_module, "src": R.program_source(forms), "expected": list(x[0])})
+    rep.note("ill_typed_operand_programs", ill_seen)
+    if ill and not ill_seen["accepted_by_reference"]:
+        rep.inconclusive_note("the reference accepted none of the ill-typed-operand programs", floor=True)
     # the fixed witnesses of the known findings (the generator steers around these constructs)
     import os
     extra = []
